@@ -7,7 +7,7 @@ From Coq Require Import String.
 From Coq Require Import List NArith Arith Bool.
 Import ListNotations.
 From TV Require Import Lib.Obs C01.Model C01.Run C01.Proofs1 C01.Proofs2 C01.Proofs3 C01.Proofs4
-  C01.Proofs5 C01.Proofs6 C01.Proofs7 C01.Proofs8.
+  C01.Proofs5 C01.Proofs6 C01.Proofs7 C01.Proofs8 C01.Proofs9 C01.SrcDesc Gen.C01_src Gen.C01_equiv.
 
 (* (REF) For every configuration and every way of cutting the byte stream into TCP
    segments, the application sees exactly what the strict reader extracts from the
@@ -112,7 +112,7 @@ Theorem C01_reject_bad_framing_headers :
      (exists v1 x v2, hget h K_CL = Some [v1; x :: v2] /\ mem COMMA v1 = false /\
                       mem COMMA (x :: v2) = false /\ is_pyspace x = false /\ v1 <> x :: v2)) ->
     exists pre, serve_msg whole_ops plain_dlg c b = (pre ++ [EvBad400], None) /\
-                (pre = [] \/ pre = [EvReq m t v (get_all h)]).
+                (pre = [] \/ pre = req_evs m t v h).
 Proof.
   intros c b hd rest m t v h H P D. apply (reject_bad_framing c b hd rest m t v h H P).
   destruct D as [[A B]|[(te & A & B)|[(cl & A & B & C)|(v1 & x & v2 & A & B & C & D & E)]]].
@@ -162,11 +162,11 @@ Print Assumptions C01_chunk_size_line_over_64_bytes_closes.
 Theorem C01_rejected_chunked_body_trace :
   forall c b hd rest m t v h ka cs,
     head_at c b hd rest -> parse_head hd = Some (m, t, v, h) ->
-    can_keep_alive m v h = Some ka -> host_check v h = HOk ->
+    can_keep_alive (no_keep_alive c) m v h = Some ka -> host_check v h = HOk ->
     body_plan (eff_max_body c) h = Some PChunked ->
     read_chunked whole_ops c (S (length rest)) (eff_max_body c) 0 rest = (cs, BBadS) ->
     serve_msg whole_ops plain_dlg c b =
-      (EvReq m t v (get_all h) :: body_ev (concat cs) ++ [EvBad400], None).
+      ((req_evs m t v h ++ body_ev (concat cs)) ++ [EvBad400], None).
 Proof. exact reject_bad_chunk. Qed.
 Print Assumptions C01_rejected_chunked_body_trace.
 
@@ -191,21 +191,21 @@ Print Assumptions C01_chunked_roundtrip.
 Theorem C01_accept_message :
   forall c b hd rest m t v h ka,
     head_at c b hd rest -> parse_head hd = Some (m, t, v, h) ->
-    can_keep_alive m v h = Some ka -> host_check v h = HOk ->
-    let req := EvReq m t v (get_all h) in
+    can_keep_alive (no_keep_alive c) m v h = Some ka -> host_check v h = HOk ->
+    let req := req_evs m t v h in
     let after := fun s : bytes => if ka then ([], Some s) else ([EvDone], None) in
     (body_plan (eff_max_body c) h = Some PNone ->
-       serve_msg whole_ops plain_dlg c b = (req :: EvFin :: fst (after rest), snd (after rest))) /\
+       serve_msg whole_ops plain_dlg c b = (req ++ EvFin :: fst (after rest), snd (after rest))) /\
     (forall n, body_plan (eff_max_body c) h = Some (PFixed n) -> (n <= N.of_nat (length rest))%N ->
        serve_msg whole_ops plain_dlg c b =
-         (req :: body_ev (firstn (N.to_nat n) rest) ++ EvFin :: fst (after (skipn (N.to_nat n) rest)),
+         ((req ++ body_ev (firstn (N.to_nat n) rest)) ++ EvFin :: fst (after (skipn (N.to_nat n) rest)),
           snd (after (skipn (N.to_nat n) rest)))) /\
     (forall cs z rest', body_plan (eff_max_body c) h = Some PChunked ->
        rest = chunks_wire cs ++ z ++ CRLF ++ CRLF ++ rest' ->
        Forall chunk_ok cs -> parse_hex_int z = Some 0%N -> (length z <= 62)%nat ->
        (chunks_len cs <= eff_max_body c)%N ->
        serve_msg whole_ops plain_dlg c b =
-         (req :: body_ev (chunks_data cs) ++ EvFin :: fst (after rest'), snd (after rest'))).
+         ((req ++ body_ev (chunks_data cs)) ++ EvFin :: fst (after rest'), snd (after rest'))).
 Proof.
   intros c b hd rest m t v h ka H P K Ho req after. repeat split.
   - apply (accept_no_body c b hd rest m t v h ka H P K Ho).
@@ -215,42 +215,91 @@ Qed.
 Print Assumptions C01_accept_message.
 
 (* Header block round trip: any token method, target of visible characters, HTTP/1.<digit>,
-   any list of fields (token name, valid field value) rendered with optional whitespace
-   around the value, CRLF or bare LF at the end of every line, and an optional leading blank
-   line: the terminator search ends exactly at the end of the block (whatever follows) and
-   the block parses back to the same line and, in order, the same fields. *)
+   any list of fields (token name, valid field value) each followed by any number of obsolete
+   line-folding continuation lines (leading SP/HT, valid part), optional whitespace around
+   values and parts, CRLF or bare LF at the end of every line, and an optional leading blank
+   line: the terminator search ends exactly at the end of the block (whatever follows) and the
+   block parses back to the same line and, in order, the same fields with the continuation
+   parts joined by single spaces (and stripped, as HTTPHeaders.parse_line does). *)
 Theorem C01_header_block_roundtrip :
   forall lead m t d e0 hls eF rest,
-    lead_ok lead -> line_ok m t d -> Forall hline_ok hls ->
-    find_term (render_head lead m t d e0 hls eF ++ rest) = Some (length (render_head lead m t d e0 hls eF)) /\
-    parse_head (render_head lead m t d e0 hls eF) =
-      Some (m, t, version_of d, fst (fields_of hls ([], None))).
+    lead_ok lead -> line_ok m t d -> Forall fline_ok hls ->
+    find_term (render_fhead lead m t d e0 hls eF ++ rest) = Some (length (render_fhead lead m t d e0 hls eF)) /\
+    parse_head (render_fhead lead m t d e0 hls eF) =
+      Some (m, t, version_of d, fst (ffields_of hls ([], None))).
 Proof.
-  intros. split; [apply head_found; assumption|apply head_roundtrip; assumption].
+  intros. split; [apply fhead_found; assumption|apply fhead_roundtrip; assumption].
 Qed.
 Print Assumptions C01_header_block_roundtrip.
 
-(* (RT) For every list of abstract well-formed requests (areq_ok: syntax as above, header
-   block within max_header_size, keep-alive, acceptable Host, body framed by none |
-   Content-Length | chunked with ANY chunk split and ANY spelling of the sizes), rendered
-   with any mix of bare-LF line ends and leading blank lines, the strict reader -- hence, by
-   C01_segmentation_independence, the server under every segmentation -- delivers exactly
-   their events, in order, and then sees EOF.
-   Full statement of DESIGN 7 also renders obsolete line folding; folding is modelled
-   (parse_line) and exercised by the correspondence, but not covered by this theorem. *)
-Theorem C01_requests_roundtrip_partial :
-  forall c rs, Forall (areq_ok c) rs ->
-    strict_reader c (concat (map render_req rs)) = concat (map req_events rs) ++ [EvEof].
-Proof. exact requests_roundtrip. Qed.
-Print Assumptions C01_requests_roundtrip_partial.
+(* (RT) For every list of abstract well-formed requests (freq_ok c true: syntax as above
+   incl. folding, header block within max_header_size, connection kept open, acceptable Host,
+   body framed by none | Content-Length | chunked with ANY chunk split and ANY spelling of the
+   sizes), rendered with any mix of the documented leniencies, the strict reader delivers
+   exactly their events, in order, and then sees EOF ... *)
+Theorem C01_requests_roundtrip :
+  forall c rs, Forall (freq_ok c true) rs ->
+    strict_reader c (concat (map render_freq rs)) = concat (map freq_events rs) ++ [EvEof].
+Proof. exact frequests_roundtrip. Qed.
+Print Assumptions C01_requests_roundtrip.
 
-Theorem C01_requests_roundtrip_any_segmentation_partial :
-  forall c rs segs, Forall (areq_ok c) rs -> concat segs = concat (map render_req rs) ->
-    serve_seg c segs = concat (map req_events rs) ++ [EvEof].
+(* ... and when they are followed by a request after which the server closes (Connection:
+   close, HTTP/1.0 without keep-alive, no_keep_alive), that request is delivered too, the
+   connection is closed and whatever bytes follow are never looked at. *)
+Theorem C01_requests_roundtrip_closing :
+  forall c rs last junk,
+    Forall (freq_ok c true) rs -> freq_ok c false last ->
+    strict_reader c (concat (map render_freq rs) ++ render_freq last ++ junk) =
+      concat (map freq_events rs) ++ freq_events last ++ [EvDone].
+Proof. exact frequests_roundtrip_closing. Qed.
+Print Assumptions C01_requests_roundtrip_closing.
+
+(* Both hold for the server under every segmentation of the same bytes. *)
+Theorem C01_requests_roundtrip_any_segmentation :
+  forall c rs last junk segs,
+    Forall (freq_ok c true) rs ->
+    (concat segs = concat (map render_freq rs) ->
+       serve_seg c segs = concat (map freq_events rs) ++ [EvEof]) /\
+    (freq_ok c false last -> concat segs = concat (map render_freq rs) ++ render_freq last ++ junk ->
+       serve_seg c segs = concat (map freq_events rs) ++ freq_events last ++ [EvDone]).
 Proof.
-  intros c rs segs H E. rewrite serve_seg_eq_strict_reader, E. apply requests_roundtrip. exact H.
+  intros c rs last junk segs H. split.
+  - intros E. rewrite serve_seg_eq_strict_reader, E. apply frequests_roundtrip. exact H.
+  - intros HL E. rewrite serve_seg_eq_strict_reader, E. apply frequests_roundtrip_closing; assumption.
 Qed.
-Print Assumptions C01_requests_roundtrip_any_segmentation_partial.
+Print Assumptions C01_requests_roundtrip_any_segmentation.
+
+(* no_keep_alive=True: whatever the peer sends and however it is segmented, the connection
+   serves exactly one message (at most one request reaches the application). *)
+Theorem C01_no_keep_alive_serves_one_message :
+  forall c segs, no_keep_alive c = true ->
+    serve_seg c segs = fst (serve_msg seg_ops plain_dlg c ([], segs)) /\
+    (count_req (serve_seg c segs) <= 1)%nat.
+Proof.
+  intros c segs H. split; [apply (nka_single seg_ops plain_dlg c H)|apply nka_at_most_one_request; exact H].
+Qed.
+Print Assumptions C01_no_keep_alive_serves_one_message.
+
+(* Expect: 100-continue.  The interim "100 (Continue)" response is written only immediately
+   after a request's head has been accepted (EvReq), so at most once per request and never
+   for a head that is rejected -- for every stream and segmentation.  (That it is written
+   exactly when the combined Expect value is "100-continue" is the definition of req_evs,
+   which all acceptance / rejection theorems above are stated with.) *)
+Theorem C01_continue_only_after_accepted_request :
+  forall c segs, continue_ok false (serve_seg c segs) = true.
+Proof. exact continue_only_after_accepted_request. Qed.
+Print Assumptions C01_continue_only_after_accepted_request.
+
+(* Tie to the source text: the constants, comparison operators and accumulation forms that
+   translators/c01_src.py extracts from tornado/http1connection.py on every run (fail-closed)
+   are exactly the ones the model was written against. *)
+Theorem C01_source_facts_are_the_modelled_ones :
+  c01_src = src_expected /\
+  sd_chunk_delim c01_src = CRLF /\ sd_chunk_line_max c01_src = 64%nat /\ sd_chunk_line_strip c01_src = 2%nat /\
+  sd_chunk_terminator c01_src = CRLF /\ sd_chunk_terminator_len c01_src = 2%nat /\
+  s2b (sd_te_literal c01_src) = s2b "chunked" /\ sd_te_cmp c01_src = CmpEq /\ sd_cl_and_te_rejected c01_src = true.
+Proof. split; [exact c01_src_is_expected|exact src_chunk_constants]. Qed.
+Print Assumptions C01_source_facts_are_the_modelled_ones.
 
 (* The operational model satisfies the checker that is applied to the implementation. *)
 Theorem C01_model_satisfies_checker : forall i, check_case i (run_case i) = true.
